@@ -21,6 +21,7 @@ import (
 	commonv2 "metacontroller/pkg/controller/common/api/v2"
 	v1 "metacontroller/pkg/controller/common/customize/api/v1"
 	"metacontroller/pkg/hooks"
+	"sync"
 	"time"
 
 	"k8s.io/apimachinery/pkg/types"
@@ -59,8 +60,11 @@ type Manager struct {
 	dynInformers    *dynamicinformer.SharedInformerFactory
 	parentInformers common.InformerMap
 
-	relatedInformers common.InformerMap
-	customizeCache   *cache.Cache[customizeKey, *v1.CustomizeHookResponse]
+	// relatedInformers is filled lazily by whichever sync first needs a related
+	// resource; syncs run in parallel (workers, per-revision hook calls).
+	relatedInformersMutex sync.Mutex
+	relatedInformers      common.InformerMap
+	customizeCache        *cache.Cache[customizeKey, *v1.CustomizeHookResponse]
 
 	stopCh chan struct{}
 
@@ -125,6 +129,8 @@ func (rm *Manager) Start(stopCh chan struct{}) {
 }
 
 func (rm *Manager) Stop() {
+	rm.relatedInformersMutex.Lock()
+	defer rm.relatedInformersMutex.Unlock()
 	for _, informer := range rm.relatedInformers {
 		informer.Informer().RemoveEventHandlers()
 		informer.Close()
@@ -161,6 +167,8 @@ func (rm *Manager) getRelatedClient(apiVersion, resource string) (*dynamicclient
 		return nil, nil, err
 	}
 	groupVersion, _ := schema.ParseGroupVersion(apiVersion)
+	rm.relatedInformersMutex.Lock()
+	defer rm.relatedInformersMutex.Unlock()
 	informer := rm.relatedInformers.Get(groupVersion.WithResource(resource))
 	if informer == nil {
 		informer, err = rm.dynInformers.Resource(apiVersion, resource)
